@@ -12,8 +12,21 @@ drops exactly the 10 000 events pending at that moment and keeps the new one, so
 opens and a flush succeeds the synced records are exactly all events minus those windows.
 Oracle (C11, roll rule across an overflow truncation): between two consecutive successful worker
 batches in the same period a new file is started only if size-before + batch bytes > limit.
+
+Section `growth` (C09 only; runs ALONE in the process, before the parallel scenarios, because the
+counting allocator is process-wide): with the worker parked inside `write`, 24 (thorough: 40) blocks
+of 10 000 events of about 1 KiB are emitted and the live heap is read after every block. Judged is
+GROWTH, not an absolute number: what a counted truncation discards must be freed, so after the first
+truncation the live heap must not keep rising with the number of emitted events. Alarm iff at some
+block k >= 8 the heap retained since the start exceeds 3 x capacity x event size AND it rose by more
+than a quarter of an event per emitted event between block k/2 and block k (event size = the larger of the
+nominal record size and what the first, truncation-free block retained per event). The emit loop of
+the measured phase keeps no per-event bookkeeping: the series vector is pre-allocated and the metrics
+are read once per block, after the heap sample.
 */
 
+#[path = "../shared/countalloc.rs"]
+mod countalloc;
 #[path = "../shared/fakefs.rs"]
 mod fakefs;
 #[path = "../shared/filee2e.rs"]
@@ -35,6 +48,200 @@ use vcommon::rec::FakeClock;
 use vcommon::*;
 
 const CAPACITY: u64 = 10_000;
+
+#[global_allocator]
+static ALLOC: countalloc::Counting = countalloc::Counting;
+
+// ---------------------------------------------------------------------------
+// section `growth`: what a truncation discards must be freed
+// ---------------------------------------------------------------------------
+
+/// First block at which the growth rule is evaluated (then after every block).
+const GROWTH_MIN_BLOCK: usize = 8;
+
+/// The growth rule over `series[k]` = live heap after block k (`series[0]` = before the first block).
+/// Returns (k, retained, rise since k/2, limit for retained, limit for the rise) when it fires at the last block.
+fn growth_alarm(series: &[i64], ev: i64) -> Option<(usize, i64, i64, i64, i64)> {
+    let k = series.len() - 1;
+    if k < GROWTH_MIN_BLOCK {
+        return None;
+    }
+    let h = k / 2;
+    let retained = series[k] - series[0];
+    let rise = series[k] - series[h];
+    let retained_limit = 3 * CAPACITY as i64 * ev;
+    let rise_limit = ev / 4 * (k - h) as i64 * CAPACITY as i64;
+    (retained > retained_limit && rise > rise_limit).then_some((k, retained, rise, retained_limit, rise_limit))
+}
+
+struct GrowthOut {
+    series: Vec<i64>,
+    ev: i64,
+    max_len: u64,
+    trunc: u64,
+    parked_all_along: bool,
+    alarm: Option<(usize, i64, i64, i64, i64)>,
+}
+
+fn growth(r: &mut Report, seed: u64, variant: u64, blocks: usize, print: bool) {
+    r.eval();
+    let mut g = Rng::stream(seed, &[9, 91, variant]);
+    let codec = if variant % 2 == 0 { Codec::Custom } else { Codec::Json };
+    let top_len = 960 + g.usize(64);
+    let case = json!({"section": "growth", "seed": seed, "variant": variant, "blocks": blocks, "payload_len_max": top_len,
+                      "writer": if codec == Codec::Custom { "custom" } else { "default-json" }});
+    if !countalloc::installed() {
+        r.inconclusive("growth: the counting allocator is not installed");
+        return;
+    }
+    let fs = FakeFs::new(variant + 711);
+    fs.set_sep(b'\n');
+    fs.close_gate();
+    let clock = FakeClock::new(1_709_251_100_000_000_000);
+    let ids = IdRng::new(variant + 717, IdMode::Random);
+    let builder = match codec {
+        Codec::Custom => emit_file::set_with_writer("logs/growth.log", writer(variant % 4 == 0, b"\n", 0, Arc::new(AtomicU64::new(0))), b"\n"),
+        Codec::Json => emit_file::set("logs/growth.log"),
+    };
+    let files = match builder.roll_by_hour().max_files(1000).max_file_size_bytes(1 << 30).verif_spawn_with(fs.clone(), clock.clone(), ids) {
+        Ok(f) => Arc::new(f),
+        Err(e) => {
+            r.inconclusive(format!("growth: could not spawn the file set: {}", e));
+            return;
+        }
+    };
+    let (tx, rx) = mpsc::channel::<Result<GrowthOut, String>>();
+    let progress = Arc::new(AtomicU64::new(0));
+    {
+        let (files, fs, progress) = (files.clone(), fs.clone(), progress.clone());
+        std::thread::spawn(move || {
+            // park the worker inside `write` with the first event
+            emit_e2e(&files, codec, 0, top_len, 0);
+            let mut parked = false;
+            for _ in 0..100_000 {
+                if fs.gate_waiting() > 0 && metric(&sample_metrics(&files), "file_queue_length") == 0 {
+                    parked = true;
+                    break;
+                }
+                std::thread::sleep(Duration::from_micros(100));
+            }
+            if !parked {
+                let _ = tx.send(Err("the worker never parked on the write gate".into()));
+                return;
+            }
+            let mut out = GrowthOut { series: Vec::with_capacity(blocks + 2), ev: 0, max_len: 0, trunc: 0, parked_all_along: true, alarm: None };
+            // nominal size of the largest record: payload + framing (`vid:len:` or the JSON field names) + separator
+            let nominal = (top_len + 96) as i64;
+            out.ev = nominal;
+            out.series.push(countalloc::live_bytes());
+            let mut vid = 1u64;
+            for k in 1..=blocks {
+                // ---- measured phase: nothing is recorded per event ----
+                for _ in 0..CAPACITY {
+                    emit_e2e(&files, codec, vid, top_len - (vid % 97) as usize, 0);
+                    vid += 1;
+                }
+                out.series.push(countalloc::live_bytes());
+                // ---- once per block, after the heap sample ----
+                let m = sample_metrics(&files);
+                out.max_len = out.max_len.max(metric(&m, "file_queue_length"));
+                out.trunc = metric(&m, "file_queue_full_truncated");
+                out.parked_all_along &= fs.gate_waiting() > 0;
+                progress.store(vid, Ordering::SeqCst);
+                if k == 1 {
+                    // the first block fills the queue without a truncation: what one event really retains
+                    out.ev = nominal.max((out.series[1] - out.series[0]) / CAPACITY as i64);
+                }
+                out.alarm = growth_alarm(&out.series, out.ev);
+                if out.alarm.is_some() {
+                    break; // do not eat the machine's memory on a tree that leaks
+                }
+            }
+            let _ = tx.send(Ok(out));
+        });
+    }
+    let out = match rx.recv_timeout(Duration::from_secs(300)) {
+        Ok(Ok(out)) => out,
+        Ok(Err(why)) => {
+            r.inconclusive(format!("growth variant {}: {}", variant, why));
+            fs.open_gate();
+            return;
+        }
+        Err(_) => {
+            r.inconclusive(format!(
+                "growth variant {}: the emit loop did not finish within 300 s while the worker was parked ({} emits returned)",
+                variant,
+                progress.load(Ordering::SeqCst)
+            ));
+            fs.open_gate();
+            return;
+        }
+    };
+    let done_blocks = out.series.len() - 1;
+    let rel: Vec<i64> = out.series.iter().map(|l| (l - out.series[0]) / 1024).collect();
+    if print {
+        eprintln!("growth variant {} ({:?}): event size {} B, live heap after each block of {} emits, KiB above the start: {:?}", variant, codec, out.ev, CAPACITY, rel);
+    }
+    r.observe("growth:emit-calls-returned-while-worker-parked", done_blocks as u64 * CAPACITY);
+    r.observe("growth:heap-samples", out.series.len() as u64);
+    r.observe("growth:overflow-truncations", out.trunc);
+    r.set(&format!("growth-variant-{}-retained-kib-per-block", variant), json!(rel));
+    r.set(&format!("growth-variant-{}-event-bytes", variant), json!(out.ev));
+    if out.max_len > CAPACITY {
+        r.violation(
+            "C09:files-e2e:queue-length-above-capacity",
+            &format!("file_queue_length reached {} (capacity {}) while the filesystem was stalled", out.max_len, CAPACITY),
+            case.clone(),
+        );
+    }
+    if let Some((k, retained, rise, retained_limit, rise_limit)) = out.alarm {
+        let mut c = case.clone();
+        c["retained_kib_after_each_block"] = json!(rel);
+        c["event_bytes"] = json!(out.ev);
+        c["worker_parked_all_along"] = json!(out.parked_all_along);
+        r.violation(
+            "C09:files:retained-heap-grows-with-emitted-events",
+            &format!(
+                "with the worker parked inside write, the live heap after {} blocks of {} emits is {} KiB above the start (limit 3 x capacity x {} B = {} KiB) and rose by {} KiB over the last {} blocks (limit a quarter of an event per emitted event = {} KiB), with {} counted truncations and file_queue_length <= {}: what the truncations discarded is not freed",
+                k,
+                CAPACITY,
+                retained / 1024,
+                out.ev,
+                retained_limit / 1024,
+                rise / 1024,
+                k - k / 2,
+                rise_limit / 1024,
+                out.trunc,
+                out.max_len
+            ),
+            c,
+        );
+    } else if out.trunc == 0 {
+        r.inconclusive(format!("growth variant {}: no truncation was counted in {} blocks; growth not judged", variant, done_blocks));
+    } else {
+        r.observe("growth:scenarios-with-a-plateau", 1);
+    }
+    r.nontrivial(&("growth", variant % 2, out.trunc > 0));
+    // release and let the pipeline finish (bounded by the flush timeout)
+    fs.open_gate();
+    if !files.blocking_flush(Duration::from_secs(120)) {
+        r.inconclusive(format!("growth variant {}: blocking_flush timed out after the gate was opened", variant));
+    }
+    // let the worker thread go before the next scenario takes its own baseline (bounded; only tidiness)
+    drop(files);
+    for _ in 0..2_000 {
+        if !worker_thread_alive() {
+            break;
+        }
+        std::thread::sleep(Duration::from_millis(1));
+    }
+}
+
+fn worker_thread_alive() -> bool {
+    std::fs::read_dir("/proc/self/task")
+        .map(|d| d.flatten().any(|e| std::fs::read_to_string(e.path().join("comm")).map(|c| c.trim_end().starts_with("emit_file_worke")).unwrap_or(false)))
+        .unwrap_or(false)
+}
 
 struct Scn {
     idx: u64,
@@ -254,9 +461,24 @@ fn main() {
         let case = load_replay(path);
         let idx = case.get("scenario").and_then(|v| v.as_u64()).unwrap_or(0);
         let cseed = case.get("seed").and_then(|v| v.as_u64()).unwrap_or(seed);
+        if case.get("section").and_then(|v| v.as_str()) == Some("growth") {
+            let variant = case.get("variant").and_then(|v| v.as_u64()).unwrap_or(0);
+            let blocks = case.get("blocks").and_then(|v| v.as_u64()).unwrap_or(24) as usize;
+            growth(&mut r, cseed, variant, blocks, true);
+            growth(&mut r, cseed, variant + 1, blocks, true);
+            std::process::exit(r.finish());
+        }
         run(&mut r, cseed, idx);
         run(&mut r, cseed, idx + 1);
         std::process::exit(r.finish());
+    }
+    // the growth scenarios read the process-wide live heap: they run alone, one after the other
+    if prop == "C09" && args.get_u64("growth", 1) != 0 {
+        let blocks = args.get_u64("growth-blocks", if args.thorough() { 40 } else { 24 }) as usize;
+        let print = args.get_u64("print-series", 0) != 0;
+        for v in 0..args.n(2, 4) {
+            growth(&mut r, seed, 2 * (seed % 2) + v, blocks, print);
+        }
     }
     let n = args.get_u64("scenarios", args.n(8, 96));
     par_cases(&mut r, &args, n, |i, r| run(r, seed, i));
